@@ -85,7 +85,7 @@ def dimTuple (c : Call) : Except Err (List Dim) :=
     match c.dim with
     | .ellipsis =>
       match c.groupers with
-      | [g] => if g.name ∈ c.objDims ∧ ¬ g.isbin then .ok (c.objDims.filter (· ≠ g.name)) else .ok c.objDims
+      | [_] => .ok c.objDims     -- (since /repo 'fix: dim=... while grouping by a dimension': every dim, as native)
       | _ => .error .multiEllipsis
     | .explicit ds => .ok ds
     | .none => .ok gd
